@@ -170,9 +170,9 @@ theorem sim_postOnly (I : Interp Val) (vsz : Loc → Nat) {pre post : Prog} {cer
       (sQ := { sQ with pc := sQ.pc + 1, regs := upd sQ.regs dQ (sQ.regs sQl) }) rfl rfl hm hH
     refine .postOnly _ d' ?_ hlt hrel
     simp only [step, hQ]
-  case swap a b =>
+  case swap a b sz =>
     simp only [checkPostOnly] at h
-    have hH := swapE_sound hE a b
+    have hH := swapE_sound vsz hE a b sz
     obtain ⟨d', hlt, hrel⟩ := rel_of_okSucc_lt (cert := cert) h (sP := sP)
       (sQ := { sQ with pc := sQ.pc + 1, regs := upd (upd sQ.regs a (sQ.regs b)) b (sQ.regs a) }) rfl rfl hm hH
     refine .postOnly _ d' ?_ hlt hrel
